@@ -11,6 +11,7 @@ NOTE = ("Trusted base: z3 5.1; the engine's fork/replay logic; the numpy/pandas 
         "lru_cache/joblib transparency; the size bounds listed in the evidence file.")
 
 CLAIMED = {
+    "C12": ("2 (C12)", "PARTIAL, stated: for 10 series transformers, 8 forecasters / composites (symbolic world) and 8 panel transformers (token arrays on the real numpy/pandas), with symbolic values so that the outlier / missing-value / window branches are all explored: the caller's data after fit and after apply-type calls are term-equal to the data before, a repeated (and interleaved inverse) apply returns term-equal results, and a snapshot of the estimator's attributes is unchanged by apply-type calls. The thread-schedule / n_jobs / pickle / random_state parts of the property are not applicable to this technique and are not claimed."),
     "C14": ("2 (C14)", "Reduced to the listed closed-form transformers: PaddingTransformer, TruncationTransformer, PAA, Tabularizer, ColumnConcatenator, IntervalSegmenter (int and array intervals), SlidingWindowSegmenter, RandomIntervalFeatureExtractor (mean/std/slope of the fitted intervals), SeriesToSeriesRowTransformer, _slope, CosineTransformer and six Imputer rules, run on the real numpy/pandas with symbolic cell values (token arrays); every output cell proved equal to the documented closed form (exactly, or within 1e-9 relative where the code itself computes with inexact float constants), rows in input order, requested lengths."),
     "C04": ("2 (C04)", "Reduced scope, stated: every public estimator class of the modules that load in the sandbox (listed in the evidence, with the modules that do not) is constructed with symbolic int/float/bool arguments and opaque tokens for everything else; stored attribute = get_params = passed value (z3 term equality / identity), clone and set_params round trips, unknown names rejected, nested component__param read/write and component replacement for the composites (symbolic values, concrete names), is_fitted False when fresh or cloned, apply-type methods raise NotFittedError before fit, fit returns self and leaves parameters unchanged."),
     "C15": ("2 (C15)", "Every conversion path of length <= 3 between nested (Series / array cells), 3-D array, multi-index, long and 2-D representations, plus check_X coercions and the nestedness predicates, executed on the real pandas with opaque symbolic tokens as cell values; each output cell is proved (term equality) to be the input token at the same (instance, column, time) position; sizes enumerated within the bounds. Weak use of the solver, stated as such."),
